@@ -69,6 +69,9 @@ def collect(P):
     # ... and the liveness check and the write of meta.json happen under a lock that kill() takes too (no check-then-act)
     P.flag("SAVE_METAS_LOCKED_AGAINST_KILL", "src/indexer/segment_updater.rs",
            r"pub fn kill\(&mut self\) \{\s*let _\w+ = self\s*\.save_metas_lock\s*\.lock\(\).{0,200}?self\.killed\.store\(true.{0,1500}?pub fn save_metas\(\s*&self,[^)]*\) -> crate::Result<\(\)> \{\s*let _\w+ = self\s*\.save_metas_lock\s*\.lock\(\).{0,200}?if self\.is_alive\(\) \{")
+    # SegmentMeta::with_delete_meta carries the "temporary doc store is alive" flag over instead of re-creating it as true
+    P.flag("WITH_DELETE_META_KEEPS_TEMP_FLAG", "src/index/index_meta.rs",
+           r"pub fn with_delete_meta\(self, num_deleted_docs: u32, opstamp: Opstamp\) -> SegmentMeta \{.{0,900}?include_temp_doc_store: inner_meta\.include_temp_doc_store\.clone\(\),")
     # MmapDirectory::sync_directory (unix): opens the root and fsyncs it
     P.flag("SYNC_DIRECTORY_FSYNCS_ROOT", "src/directory/mmap_directory/mod.rs",
            r"#\[cfg\(not\(windows\)\)\]\s*fn sync_directory\(&self\) -> Result<\(\), io::Error> \{.{0,400}?open\(&self\.inner\.root_path\)\?;\s*fd\.sync_(data|all)\(\)\?;")
